@@ -191,6 +191,26 @@ func metaState(ms *MetadataStore) string {
 		return out
 	}
 	fmt.Fprintf(&sb, "members=%v\ndevices=%v\nadmins=%v\n", pubs(ms.ListMembers()), pubs(ms.ListDevices()), pubs(ms.ListAdmins()))
+	// which devices belong to which member, and back
+	var md []string
+	for _, m := range ms.ListMembers() {
+		mb, _ := m.Raw()
+		ds, err := ms.GetDevicesForMember(m)
+		md = append(md, fmt.Sprintf("%s->%v(err=%v)", hx(mb), pubs(ds), err != nil))
+	}
+	sort.Strings(md)
+	var dm []string
+	for _, d := range ms.ListDevices() {
+		db, _ := d.Raw()
+		m, err := ms.GetMemberByDevice(d)
+		mb := []byte(nil)
+		if m != nil {
+			mb, _ = m.Raw()
+		}
+		dm = append(dm, fmt.Sprintf("%s->%s(err=%v)", hx(db), hx(mb), err != nil))
+	}
+	sort.Strings(dm)
+	fmt.Fprintf(&sb, "member-devices=%v\ndevice-member=%v\n", md, dm)
 	en, sc := ms.GetIncomingContactRequestsStatus()
 	seed := ""
 	if sc != nil {
